@@ -196,4 +196,19 @@ Proof.
   apply upper_diag_nonzero. apply (lu_injf M LU (rows M) sw Hs HI). now apply (left_inverse_injf _ Nf).
 Qed.
 
+(* singular input over any field with a magnitude: if M has no right inverse the code's determinant is exactly 0
+   (contrapositive of: a nonzero determinant makes inverse return, and what it returns is a right inverse) *)
+Lemma determinant_singular_field_lemma (M : matrix) : wf M -> rows M = cols M ->
+  ~ (exists Nf : nat -> nat -> A, forall i j, i < rows M -> j < rows M -> mprod (rows M) (ent M) Nf i j = delta i j) ->
+  determinant M = Ok zero.
+Proof.
+  intros W Esq Hno.
+  destruct (determinant_total_lemma FL PL M W Esq) as (d & Hd). rewrite Hd. f_equal.
+  destruct (eqb d zero) eqn:E0; [now apply (fl_eqb A FL)|].
+  apply (eqb_false_neq FL) in E0. exfalso. apply Hno.
+  destruct (inverse_complete_lemma FL PL M d W Esq Hd E0) as (N & EN).
+  destruct (inverse_right_lemma FL PL M N W Esq EN) as (_ & HR).
+  exists (ent N). exact HR.
+Qed.
+
 End Kernel.
